@@ -18,6 +18,7 @@ var argNames = []string{"x", "y", "z", "first", "arg", "ar", "agr"}
 var enumValueNames = []string{"RED", "GREEN", "BLUE", "A", "B", "RAD", "GREN"}
 
 type schemaGen struct {
+	inputBias bool // argument types prefer input objects (and a oneOf input always exists)
 	t          *rapid.T
 	doc        *ref.SchemaDoc
 	order      []TopItem
@@ -64,6 +65,12 @@ func (g *schemaGen) inputTypeNames() []string {
 	out = append(out, g.scalars...)
 	out = append(out, g.enums...)
 	out = append(out, g.inputs...)
+	if g.inputBias {
+		out = append(append(append(out, g.inputs...), g.inputs...), g.inputs...)
+		if g.oneOf != "" {
+			out = append(out, g.oneOf, g.oneOf)
+		}
+	}
 	return out
 }
 
@@ -446,7 +453,8 @@ func TypedSchema() *rapid.Generator[SchemaTree] {
 		for i, n := 0, rapid.IntRange(1, 2).Draw(t, "nenum"); i < n; i++ {
 			g.enums = append(g.enums, fmt.Sprintf("E%d", i+1))
 		}
-		for i, n := 0, rapid.IntRange(1, 3).Draw(t, "ninput"); i < n; i++ {
+		g.inputBias = g.chance("inputbias", 4)
+		for i, n := 0, rapid.IntRange(1, 3).Draw(t, "ninput"); i < n || (g.inputBias && i < 2); i++ {
 			g.inputs = append(g.inputs, fmt.Sprintf("In%d", i+1))
 		}
 		for i, n := 0, rapid.IntRange(0, 2).Draw(t, "nscalar"); i < n; i++ {
@@ -477,7 +485,7 @@ func TypedSchema() *rapid.Generator[SchemaTree] {
 		for _, n := range g.inputs {
 			g.defs[n] = &ref.TypeDef{Kind: "INPUT_OBJECT", Name: n, Desc: g.description()}
 		}
-		if len(g.inputs) > 1 && g.chance("oneof", 2) {
+		if len(g.inputs) > 1 && (g.chance("oneof", 2) || g.inputBias) {
 			g.oneOf = g.inputs[len(g.inputs)-1]
 		}
 		for idx, n := range g.inputs {
